@@ -105,6 +105,23 @@ def add_new_constant_tensor(
   return new_tensor_id
 
 
+def _get_unique_tensor_name(
+    tensor_name, subgraph: schema_py_generated.SubGraphT
+):
+  """Returns tensor_name, suffixed if needed so it is unique in the subgraph."""
+  existing_names = set(tensor.name for tensor in subgraph.tensors)
+  if tensor_name not in existing_names:
+    return tensor_name
+  suffix_id = 1
+  is_bytes = isinstance(tensor_name, bytes)
+  while True:
+    suffix = f'_{suffix_id}'
+    candidate = tensor_name + (suffix.encode() if is_bytes else suffix)
+    if candidate not in existing_names:
+      return candidate
+    suffix_id += 1
+
+
 def add_new_activation_tensor(
     tensor_name: str,
     shape: list[int],
@@ -125,7 +142,7 @@ def add_new_activation_tensor(
   new_tensor = schema_py_generated.TensorT()
   new_tensor.shape = shape
   new_tensor.type = tensor_type
-  new_tensor.name = tensor_name
+  new_tensor.name = _get_unique_tensor_name(tensor_name, subgraph)
   new_tensor.buffer = 0
   new_tensor_id = len(subgraph.tensors)
   subgraph.tensors.append(new_tensor)
